@@ -337,10 +337,15 @@ def sweep(ctx: Ctx):
 
 
 def run(ctx: Ctx):  # noqa: F811
-    sigs = gen(ctx)
-    ctx.copy_coq("C03")
-    status = ctx.coq_build()
-    ctx.register_props(status)
+    gen_err, sigs, status = None, None, {}
+    try:
+        sigs = gen(ctx)
+    except P.Unsupported as e:  # translator fails closed: the tie is broken; still search the implementation for a failing input
+        gen_err = e
+    if gen_err is None:
+        ctx.copy_coq("C03")
+        status = ctx.coq_build()
+        ctx.register_props(status)
     failures = sweep(ctx)
     # a property theorem that no longer checks: attach the concrete failing input of the same (class, kind) if the sweep has one
     used = set()
@@ -360,12 +365,20 @@ def run(ctx: Ctx):  # noqa: F811
             ctx.fail(name, f"{cls}.{KIND_OF.get(kind, kind)}:{p}:x={x}", round(float(obs), 9),
                      f"{cls}({p}): {KIND_OF.get(kind, kind)} at x={x} is {obs}, the true value is {exp}{extra}",
                      {"reproduce": f"tf={cls}(**{p}); tf.{KIND_OF.get(kind, kind)}(np.array([{x}]))  # vs finite differences", "expected": exp})
+    cands = []
     for (cls, kind), (p, x, obs, exp) in failures.items():
         if (cls, kind) in used:
             continue
-        ctx.fail(f"sweep_{short(cls)}_{kind}", f"{cls}.{KIND_OF.get(kind, kind)}:{p}:x={x}", round(float(obs), 9) if isinstance(obs, float) else obs,
-                 f"{cls}({p}): {KIND_OF.get(kind, kind)} at x={x} is {obs}, expected {exp}",
-                 {"reproduce": f"tf={cls}(**{p}); tf.{KIND_OF.get(kind, kind)}(np.array([{x}]))", "expected": exp})
+        key = f"{cls}.{KIND_OF.get(kind, kind)}:{p}:x={x}"
+        ob_ = round(float(obs), 9) if isinstance(obs, float) else obs
+        text = f"{cls}({p}): {KIND_OF.get(kind, kind)} at x={x} is {obs}, expected {exp}"
+        rp = {"reproduce": f"tf={cls}(**{p}); tf.{KIND_OF.get(kind, kind)}(np.array([{x}]))", "expected": exp}
+        if gen_err is not None and not ctx.is_known(key, ob_):
+            cands.append((key, ob_, text, rp))
+        else:
+            ctx.fail(f"sweep_{short(cls)}_{kind}", key, ob_, text, rp)
+    if gen_err is not None:
+        ctx.broken_tie("translator(rtransform.py)", gen_err, cands)
     if status.get("C03_gen.v"):
         correspondence(ctx, sigs)
     ctx.cov["rule"] = ("interval correspondence: random admissible dyadic parameters (k, m in {1,1.5,2,2.5,3,..}) and interior/near-end points per class "
